@@ -113,9 +113,12 @@ Proof.
   set (E := firstn e S) in *. set (S2 := skipn e S) in *.
   assert (LE : length E = e) by (apply firstn_length_le; auto).
   assert (SE : SS o E) by (apply SS_firstn; rewrite <- (firstn_skipn e S); fold E; fold S2; exact HS).
+  assert (A1 : forall w, (forall x y, In x E -> In y w -> before o x y = true) ->
+                         topk o L (E ++ w) = E ++ topk o (L - e) w).
+  { intros w Hw. rewrite topk_split; auto; try lia. rewrite LE. reflexivity. }
   rewrite <- !app_assoc.
-  rewrite !topk_split; auto; try lia.
-  - rewrite LE. f_equal. apply topk_union.
+  rewrite (A1 (S2 ++ concat (map (topk o (L - e)) Bs))), (A1 (S2 ++ concat Bs)).
+  - f_equal. apply topk_union.
   - intros x y Ix Iy. apply in_app_iff in Iy. destruct Iy as [Iy|Iy].
     + eapply SS_app_inv; eauto.
     + apply in_concat in Iy. destruct Iy as [b [Ib Iy]]. eapply HB; eauto.
@@ -140,10 +143,10 @@ Proof.
   - destruct rem; [|simpl in Hf; lia]. simpl. exists tot. rewrite app_nil_r. auto.
   - destruct rem as [|f r].
     { simpl. exists tot. rewrite app_nil_r. auto. }
+    assert (HS : SS (p_order p) (q_ids tot)) by (rewrite HI; apply topk_SS).
+    assert (HSL : length (q_ids tot) <= p_limit p) by (rewrite HI; apply topk_length).
     set (o := p_order p) in *. set (L := p_limit p) in *.
     set (S := q_ids tot) in *.
-    assert (HS : SS o S) by (unfold S; rewrite HI; apply topk_SS).
-    assert (HSL : length S <= L) by (unfold S; rewrite HI; apply topk_length).
     simpl in HL. set (e := count_while (beyond o f) S) in *.
     assert (He : e <= length S) by apply count_while_le.
     cbn [loop].
